@@ -69,11 +69,32 @@ pub proof fn lemma_pad_done(n: int, p: int)
     ensures p == pad_len(n),
 {}
 
-/// matrix ids are handed out densely: 0..len, no id twice
+/// some feature row has matrix id v
+pub open spec fn val_hit(m: Map<Seq<U31>, usize>, v: int) -> bool { exists|k: Seq<U31>| #[trigger] m.contains_key(k) && m[k] as int == v }
+/// matrix ids are handed out densely: 0..len, no id twice, every id below len taken
 pub open spec fn ids_dense(m: Map<Seq<U31>, usize>) -> bool {
     &&& m.dom().finite()
     &&& forall|k: Seq<U31>| #[trigger] m.contains_key(k) ==> m[k] < m.dom().len()
     &&& forall|k1: Seq<U31>, k2: Seq<U31>| #[trigger] m.contains_key(k1) && #[trigger] m.contains_key(k2) && m[k1] == m[k2] ==> k1 == k2
+    &&& forall|v: int| 0 <= v < m.dom().len() ==> #[trigger] val_hit(m, v)
+}
+/// connection id a (0 = BOS/EOS) is one of the ids whose matrix id is x
+pub open spec fn mid_seen(ids: Seq<u16>, x: int) -> bool { exists|a: int| 0 <= a < ids.len() && #[trigger] ids[a] as int == x }
+/// every matrix id is referenced by some connection id (DualConnector::conn_wf's `onto_ids`, restated without the unit scorer's vocabulary)
+pub open spec fn mids_onto(ids: Seq<u16>, n: int) -> bool { forall|x: int| 0 <= x < n ==> #[trigger] mid_seen(ids, x) }
+/// fm_ok ==> every matrix id is referenced
+pub proof fn lemma_fm_onto(ids: Seq<u16>, m: Map<Seq<U31>, usize>, rows: Seq<Vec<U31>>, idxs: Seq<usize>)
+    requires fm_ok(ids, m, rows, idxs, rows.len() as int),
+    ensures mids_onto(ids, m.dom().len() as int),
+{
+    assert forall|x: int| 0 <= x < m.dom().len() implies #[trigger] mid_seen(ids, x) by {
+        assert(val_hit(m, x));
+        let k = choose|k: Seq<U31>| #[trigger] m.contains_key(k) && m[k] as int == x;
+        assert(key_used(k, rows, idxs, rows.len() as int));
+        let a = choose|a: int| 0 <= a <= rows.len() && #[trigger] ckey(rows, idxs, a) == k;
+        assert(m[ckey(rows, idxs, a)] == ids[a] as usize);
+        assert(ids[a] as int == x);
+    }
 }
 /// some connection id below `upto` has the feature row k
 pub open spec fn key_used(k: Seq<U31>, rows: Seq<Vec<U31>>, idxs: Seq<usize>, upto: int) -> bool {
@@ -142,4 +163,19 @@ pub proof fn lemma_used_len(k: Seq<U31>, rows: Seq<Vec<U31>>, idxs: Seq<usize>)
 impl ScorerBuilder {
     #[verifier::external_body]
     pub fn build_wf(&self) -> (r: Scorer) ensures r.wf() { unimplemented!() }
+}
+
+/// what DualConnector::from_readers builds: DualConnector::conn_wf (unit scorer) WITHOUT its magnitude bound on the raw scorer's costs
+/// (that bound is a hypothesis on the model, H-room) - one row and one matrix id per connection id, matrix ids inside the matrix,
+/// BOS/EOS = matrix id 0, every matrix id referenced
+pub open spec fn dual_built_shape(d: DualConnector) -> bool {
+    let m = d.matrix_connector;
+    &&& m.data.len() == m.num_left * m.num_right && 1 <= m.num_left <= 0x10000 && 1 <= m.num_right <= 0x10000
+    &&& d.raw_scorer.wf()
+    &&& 1 <= d.left_conn_id_map.len() <= 0x10000 && 1 <= d.right_conn_id_map.len() <= 0x10000
+    &&& d.left_feat_ids.len() == d.left_conn_id_map.len() && d.right_feat_ids.len() == d.right_conn_id_map.len()
+    &&& forall|i: int| 0 <= i < d.left_conn_id_map.len() ==> (#[trigger] d.left_conn_id_map[i] as int) < m.num_left
+    &&& forall|i: int| 0 <= i < d.right_conn_id_map.len() ==> (#[trigger] d.right_conn_id_map[i] as int) < m.num_right
+    &&& d.left_conn_id_map[0] == 0 && d.right_conn_id_map[0] == 0
+    &&& mids_onto(d.left_conn_id_map@, m.num_left as int) && mids_onto(d.right_conn_id_map@, m.num_right as int)
 }
